@@ -27,6 +27,22 @@ def leading_plain(name):
     return k
 
 
+# symbols the user can type literally after an opening quote of any style (no quote characters, no
+# backslash, `$`, `!`, backtick or control characters)
+TYPABLE = {"a", "b", "sp", "star", "qm", "tilde", "dash", "hash", "lb", "rb", "amp", "semi", "pipe", "gt", "lt", "lp", "rp", "lk", "rk", "comma", "eq", "pct", "at", "colon", "caret", "dot", "uni", "and"}
+OPERATOR_LIKE = {"gt", "lt", "pipe", "semi", "amp", "lp", "rp", "and", "hash", "sp", "lk", "rk", "lb", "rb", "comma", "eq", "at"}
+
+
+def typable_run(name):
+    k = 0
+    for s in name:
+        if s in TYPABLE:
+            k += 1
+        else:
+            break
+    return k
+
+
 def universe(tier, rng, streams):
     names = []
     full = 2 if tier == "quick" else 3
@@ -47,6 +63,13 @@ def universe(tier, rng, streams):
             continue
         for o in OPENS:
             ks = {0, leading_plain(name)} if o != "none" else {0, min(1, leading_plain(name))}
+            # inside an opened quote the user may have typed on, through characters that are operators
+            # outside quotes (`'a>b`, `"x | y`): up to and including the last such character of the typable run
+            if o != "none":
+                run_ = typable_run(name)
+                ops = [i + 1 for i in range(run_) if name[i] in OPERATOR_LIKE]
+                if ops:
+                    ks |= {ops[0], ops[-1], run_}
             for k in sorted(ks):
                 # files by default; directories and an already present closing quote on a fixed tenth each
                 h = sum(map(ord, "".join(name) + o)) + 7 * k
@@ -57,6 +80,9 @@ def universe(tier, rng, streams):
                     variants.append({"closing": "after"})
                 if o != "none" and k >= 1 and h % 7 in (2, 3):
                     variants.append({"closing": "closed"})
+                # a `$` in the name decides between raw and plain quoting: always with an existing closing quote too
+                if o != "none" and "dl" in name:
+                    variants += [{"closing": "after"}] + ([{"closing": "closed"}] if k >= 1 else [])
                 for v in variants:
                     scn = dict({"name": name, "open": o, "typed": k}, **v)
                     key = json.dumps(scn, sort_keys=True)
